@@ -449,6 +449,18 @@ impl Monitor {
         } else if matches!(out, Out::Panic(ql::items::Pk::Cycle)) {
             stats.bump("cycle_panics_without_observed_reentry", 1);
         }
+        if self.flags.intern {
+            // which interned ids does each memo depend on (as of its last execution)?
+            self.sub.int_reads.clear();
+            for (sk, k) in &self.s2m {
+                if let Some(r) = self.recs.get(k) {
+                    let ids: Vec<u64> = r.reads.iter().filter_map(|rd| if let Read::Int(id) = rd { Some(*id) } else { None }).collect();
+                    if !ids.is_empty() {
+                        self.sub.int_reads.insert((format!("{:?}", sk.ing), sk.id), ids);
+                    }
+                }
+            }
+        }
         self.sub.after_op(&self.flags, i, op, exp, out, log, sess, world, pre_world, stats, self.rev)
     }
 
